@@ -117,7 +117,8 @@ class Worker(object):
         for p in sorted(glob.glob(self.sanprefix + ".*")):
             try:
                 with open(p, "rb") as fh:
-                    san += fh.read()[-8000:].decode("utf-8", "replace")
+                    data = fh.read().decode("utf-8", "replace")
+                    san += data if len(data) <= 7000 else data[:4000] + "\n...[cut]...\n" + data[-3000:]
             except Exception:
                 pass
         sig = None
